@@ -1,4 +1,6 @@
 import CrdtModel.Audit.Tool
+import CrdtModel.Props.Addenda
+import CrdtModel.Witness.NestedMore
 import CrdtModel.Props.C19
 import CrdtModel.Witness.SerdeDeferred
 #audit_ns Crdt.C19
